@@ -25,6 +25,7 @@ func init() {
 }
 
 func runC32(c *eng.Ctx) {
+	defer runC32Repeatable(c)
 	p := c.P
 	Q := "promql:"
 	// ---- R1 accessors ----
